@@ -586,7 +586,7 @@ class Interstitial(object):
         # NOTE: we should have a negative definite matrix, so negate those eigenvalues...
         for l, p in zip(-lamb, phi.T):
             # need to check if lamb is (approximately) 0. Can also check if p is close to sqrtrho
-            if abs(l) < 1e-8*averate: continue
+            if abs(l) <= 1e-8*averate: continue
             if np.isclose(np.dot(p, sqrtrho), 1): continue
             F = np.tensordot(p*sqrtrho, sitedipoles, axes=1)
             L = tensor_square(F)
